@@ -46,7 +46,7 @@ JudgeC13(t) ==
     LET s     == t.script
         f     == t.final
         fault == s.event \in {"peerClose", "peerEof", "peerSilent"} \/ (s.event = "peerBad" /\ s.k <= 3) \/ f.faultTriggered
-        local == s.event \in {"localClose", "localCloseReason", "localCloseLateRead"}
+        local == s.event \in {"localClose", "localCloseReason", "localCloseLateRead", "localCloseStalled"}
         nrep  == Count(t, "ReportError")
         known == First(t, {"CloseEnd", "ReportError"})
         late  == Cardinality({i \in Idx(t) : t.events[i].ev = "DeliverIn" /\ known > 0 /\ i > known})
@@ -63,7 +63,9 @@ JudgeC13(t) ==
         b7 == IF s.event = "localCloseLateRead" /\ ce > 0
                  /\ \E i, j \in Idx(t) : ce < i /\ i < j /\ t.events[i].ev = "NetReadReleased" /\ t.events[j].ev = "DeliverIn" /\ t.events[j].n = 7
               THEN {<<"C13", "frame-read-after-the-close-delivered", s.k>>} ELSE {}
-    IN  b1 \cup b2 \cup b3 \cup b4 \cup b5 \cup b6 \cup b7
+        \* a local close comes back, also while the peer reads nothing
+        b8 == IF \E i \in Idx(t) : t.events[i].ev = "CloseEnd" /\ t.events[i].res = "hang" THEN {<<"C13", "local-close-does-not-return", s.event>>} ELSE {}
+    IN  b1 \cup b2 \cup b3 \cup b4 \cup b5 \cup b6 \cup b7 \cup b8
 
 \* C08, websocket side: a frame a SHIP peer must never send costs at most the connection - the receive loop goes on (the
 \* regular frame 9 that follows is delivered) or the connection is closed
